@@ -158,7 +158,7 @@ def cases(tier, seed):
 def targets(tier):
     k = 1 if tier == "quick" else 10
     t = {"samples": 30000 * k, "drifts": 300 * k, "warnings": 300 * k, "bound_calls_checked": 2000 * k, "cache_hits": 2000 * k,
-         "twin_pairs": 50 * k, "parallel_traces_compared": 25 * k, "histories_3plus_epochs": 40 * k}
+         "twin_pairs": 40 * k, "parallel_traces_compared": 20 * k, "histories_3plus_epochs": 40 * k}
     for r in RATES:
         t["drift_by:" + r] = 30 * k
     return t
